@@ -483,6 +483,7 @@ def shard_generated(binary, seed, idx, count, tmp, sweep_every=5):
     lines = [x_line(True, G.DEFAULT_OPTS, d.data) for d in docs]
     # limit sweeps: every sweep_every-th document under each limit at 0 / 1 / exact / exact+1 (compact mode) + a compact baseline
     sweeps = []     # (line index, doc index, field, value)
+    flags = []      # (line index, doc index)
     base_idx = {}
     for di in range(0, count, sweep_every):
         d = docs[di]
@@ -494,6 +495,9 @@ def shard_generated(binary, seed, idx, count, tmp, sweep_every=5):
             for v in sorted(set([0, 1, d.needs[f], d.needs[f] + 1, max(0, d.needs[f] - 1)])):
                 sweeps.append((len(lines), di, f, v))
                 lines.append(x_line(False, dict(G.DEFAULT_OPTS, **{f: v}), d.data))
+        # the two boolean options (permissive, namespaceProcessing) must not change what is reported for a well-formed document
+        flags.append((len(lines), di))
+        lines.append(x_line(False, dict(G.DEFAULT_OPTS, permissive=1, ns=0), d.data))
     # undefined / external entity documents
     und = []
     for _ in range(max(20, count // 50)):
@@ -545,6 +549,15 @@ def shard_generated(binary, seed, idx, count, tmp, sweep_every=5):
             else:
                 s.obs("sweep_beyond_limit_rejected")
         s.case(sig=["sweep", f, rel, acc])
+    for li, di in flags:
+        rec, base = recs.get(li), recs.get(base_idx[di])
+        if rec is None or base is None:
+            continue
+        d = docs[di]
+        s.obs("option_flag_runs")
+        if rec["acc"] != base["acc"] or rec.get("ctok") != base.get("ctok"):
+            s.viol("C14:options:flags-change-events", "permissive=true/namespaceProcessing=false changes the tokens reported for a well-formed document",
+                   dict(case=lines[li][:20000], document=d.data[:600].decode("utf-8", "replace")))
     for li, data, meta in und:
         rec = recs.get(li)
         if rec is None:
@@ -676,7 +689,7 @@ def run(ctx):
     binary = vf.build("c14_xml", "asan", ASAN_FLAGS)
     if thorough:
         vf.build("c14_xml", "fuzz", FUZZ_FLAGS)
-    scale = 100 if thorough else 1
+    scale = int(os.environ.get("VF_THOROUGH_SCALE", "100")) if thorough else 1      # thorough = quick counts x100 (+ libFuzzer)
     n_docs, n_mut = 10000 * scale, 100000 * scale
     jobs = []
     k = 0
